@@ -117,7 +117,7 @@ func matrixCase(c *h.Case, i int) {
 		port = ps.Quic
 	}
 	user := "mx" + newMarker(rng)
-	common := clientCommonTOML(port, ps.Token, user, m.Protocol, m.Mux, false, 0, m.Cli, true)
+	common := clientCommonTOML(port, ps.clientAuth(), user, m.Protocol, m.Mux, false, 0, m.Cli, true)
 	c.Data["frpc"] = common
 
 	replied, accepted := false, false
